@@ -47,9 +47,11 @@ fn main() {
     let tier = if tier == "thorough" { "thorough" } else { "quick" };
     let code = match id.as_str() {
         "C01" => run_model(vec![(props::c01(), 20000, 400000)], tier, replay),
+        "C06" => run_model(vec![(props::c06(), 6000, 120000)], tier, replay),
         "C07" => run_model(vec![(props::c07(false), 8000, 150000), (props::c07(true), 800, 15000)], tier, replay),
         "C08" => run_model(vec![(props::c08(), 40000, 800000)], tier, replay),
         "C09" => run_model(vec![(props::c09(), 30000, 600000)], tier, replay),
+        "C10" => run_model(vec![(props::c10(false, true), 5000, 100000), (props::c10(true, false), 5000, 100000), (props::c10(true, true), 500, 10000)], tier, replay),
         "C11" => run_model(vec![(props::c11(), 10000, 200000)], tier, replay),
         "C14" => run_model(vec![(props::c14(Some(false), Some(0)), 8000, 150000), (props::c14(Some(true), Some(0)), 600, 10000), (props::c14(Some(false), None), 600, 10000)], tier, replay),
         _ => {
